@@ -576,10 +576,13 @@ def worker_step(case, led):
                 elif ofs_name == "ofs_d":
                     ok = pref_d == 0 or swapped == (pref_d > 0)
                     why = f"discarded-weight criterion: loss(keep)={l1:.3e}, loss(exchange)={l2:.3e}, exchanged={swapped}"
-                else:   # hybrid: whenever both measures (or the only discriminating one) agree, that order must be chosen
-                    votes = {p for p in (pref_s, pref_d) if p != 0}
-                    ok = len(votes) != 1 or swapped == (votes.pop() > 0)
-                    why = f"hybrid criterion: S {e1:.6f}/{e2:.6f}, loss {l1:.3e}/{l2:.3e}, exchanged={swapped}"
+                else:   # hybrid, as documented in _update_mps: the discarded weight decides unless both weights vanish (< 1e-10), then the entropy decides;
+                    # a tie of the deciding measure admits either order (the other measure is NOT consulted), and so does a weight within rounding of 1e-10
+                    both_zero = l1 < 1e-10 and l2 < 1e-10
+                    near_thr = any(0.5e-10 < l < 2e-10 for l in (l1, l2))
+                    pref = pref_s if both_zero else pref_d
+                    ok = near_thr or pref == 0 or swapped == (pref > 0)
+                    why = f"hybrid criterion ({'entropy' if both_zero else 'discarded weight'} decides): S {e1:.6f}/{e2:.6f}, loss {l1:.3e}/{l2:.3e}, exchanged={swapped}"
                 led.check(ok, "post:MatrixProduct._update_mps:ofs_decision", "MatrixProduct._update_mps", why, key + ("decision",), fields,
                           dict(rep, entropy=[e1, e2], loss=[l1, l2]), (pref_s != 0 or pref_d != 0))
                 led.check(mps.bond_dims[cidx[1]] <= M, "post:MatrixProduct._update_mps:ofs_bond_limit", "MatrixProduct._update_mps",
